@@ -168,7 +168,7 @@ def bytes_case(batch, klass, yline, res_):
 def bytes_cm_compress(batch, klass, stack, pkt, d, strat_first, rules, res_):
     """ContextManager.compress on the byte-level model (ManagerBytes.bcm_compress with the byte-level parsers): raw-exact result"""
     from microschc.rfc8724 import RuleNature as _RN
-    if stack == 'CoAP-semantic' or len(pkt) * 8 > 12000 or any(r.nature is _RN.FRAGMENTATION for r in rules):
+    if stack == 'CoAP-semantic' or len(pkt) * 8 > 12000:
         return
     buf = Buffer(pkt, len(pkt) * 8)
     t = ['Y', 'bcmcompress', stack, raw(buf), DIRC[d], 'F' if strat_first else 'B', str(len(rules))]
@@ -179,9 +179,6 @@ def bytes_cm_compress(batch, klass, stack, pkt, d, strat_first, rules, res_):
 
 def bytes_cm_decompress(batch, klass, sbuf_raw, d, rules, res_):
     """ContextManager.decompress on the byte-level model (ManagerBytes.bcm_decompress, compute stage included)"""
-    from microschc.rfc8724 import RuleNature as _RN
-    if any(r.nature is _RN.FRAGMENTATION for r in rules):
-        return
     t = ['Y', 'bcmdecompress', sbuf_raw, dopt(d), str(len(rules))]
     for r in rules:
         t += raw_rule_tokens(r)
@@ -275,9 +272,8 @@ def parse_model_match(line, visible=None):
 def case_match(batch, pd, rules, klass='match', extra=None, ruler=None):
     """ruler: a long-lived Ruler over `rules` to reuse (state kept between calls must not matter)"""
     npd = n_pdesc(pd)
-    # rules of fragmentation nature are invisible to the model and to the reference: they must simply never be offered
-    from microschc.rfc8724 import RuleNature as _RN
-    visible = [i for i, r in enumerate(rules) if r.nature is not _RN.FRAGMENTATION]
+    # rules of fragmentation nature are part of the model (never offered) and of the reference (never applying)
+    visible = list(range(len(rules)))
     nrs = [n_rule(rules[i]) for i in visible]
     ruler = Ruler(rules) if ruler is None else ruler
 
